@@ -185,6 +185,11 @@ def oracle_c19(case, raw):
             firsts = [val for (key, val) in accepted.items() if key[:3] == ident[:3] and len(key) == 5 and key[3] == 0]
             if firsts:
                 subject = firsts[-1]
+            # the reassembled whole bundle has been received and acted on under its own identity: a later whole
+            # copy (or a re-reassembly) of it is a repeat
+            for ent in delivers:
+                if tuple(ent['ident']) == ident[:3]:
+                    accepted.setdefault(ident[:3], subject)
         flags = int(subject.get('flags', 0))
         for ent in reports:
             dec = ent['bundle']
@@ -371,7 +376,7 @@ def main():
     model_err = ''
     try:
         terms = [B.coq_case(case)[0] for (_tag, case) in cases]
-        model = [B.canon_model(res) for res in chk.coq_eval('grid', ['Model.BpAgent'], terms, B.COQ_RUN, chunk=14)]
+        model = [B.canon_model(res) for res in chk.coq_eval('grid', ['Model.BpAgent'], terms, B.COQ_RUN, chunk=max(14, -(-len(terms) // 48)))]
     except CoqError as err:
         model_err = str(err)[:600]
     phase['coq_eval'] = round(time.time() - mark, 1)
